@@ -16,7 +16,7 @@ SENT = ["Ends.", "Really?", "Yes!", "(so.)", 'said."']
 HAZ = ["-", "+", "*", "#", "##", ">", "1.", "2)", "10.", "-x", "#tag", "1.5", "|", "a|b"]
 INLINE = ["*em*", "**strong**", "`code`", "`a b`", "[link](http://x.y)", "[l k](http://x.y/a_b \"T\")", "[w](http://x.y/t \"T  w\")", "![img](i.png)", "[t](http://r.ef/x)", "[t2](http://r.ef/x \"Other\")", "![i2](http://r.ef/x)",
           "<http://auto.link>", "http://bare.url/x", "www.example.com/p", "<https://e.com/o'neil>", "https://e.com/what's-new...x", "<b>", "</b>", "<span class=\"x y\">", "~~gone~~", "[^fn]", "[ref]",
-          "`超时timeout`", "[文档](http://x.y/部署v2/ \"标题T\")", "<span title=\"中文abc\">", "<http://x.y/部署v2>", "![img](i/图a.png)",
+          "`超时timeout`", "`a `", "` b`", "`> `", "[文档](http://x.y/部署v2/ \"标题T\")", "<span title=\"中文abc\">", "<http://x.y/部署v2>", "![img](i/图a.png)",
           "\\*lit\\*", "2023\\.", "7\\)", "\\# no", "\"quoted\"", "it's", "wait...", "a_b_c", "2*3*4", "&amp;", "x<y"]
 TAGS = ["{% t %}", "{% /t %}", "{{ v }}", "{# c #}", "<!-- h -->", "{% a x=\"1 2\" %}", "{% t %}{% /t %}", "<!-- a --><!-- /a -->",
         "{% p l=\"50% used\" %}", "{{ i % 2 }}", "{# 10 # 2 #}", "<!-- a - b -> c -->"]
@@ -108,12 +108,15 @@ def block(rnd, depth=0, with_tags=False, in_list=False):
         lang = rnd.choice(("", "py", "js {x=1}"))
         code = "\n".join(rnd.choice(["x = 1", "  indented", "", "``` not a fence", "~~~", "> quoted", "- item", "a  b", "\ttab",
                                       "{% tag %}", "\"q\" ... 'z'", "```", " ```", "   ````", "  ~~~~", "it's \"q\"",
-                                      "...spread", "compiling...", "...     print(i)", "fmt...)", "wait... what"])
+                                      "...spread", "compiling...", "...     print(i)", "fmt...)", "wait... what",
+                                      "     ```", "    ~~~", "      ````", "trailing  ", "tab\t"])
                          for _ in range(rnd.choice((1, 2, 4))))
         if f[0] == "`" and re.search(r"^ {0,3}`{%d,}" % len(f), code, re.M):
             f = "`" * 7
         if f[0] == "~" and re.search(r"^ {0,3}~{3,}", code, re.M):
             f = "~" * 7
+        if depth == 0 and hasattr(rnd, "top_code"):
+            rnd.top_code.append(code)          # what the generator knows to be code, independently of any parser
         return "%s%s\n%s\n%s" % (f, lang, code, f)
     if k == "indented":
         return "    code line\n    more  code"
@@ -137,8 +140,12 @@ def block(rnd, depth=0, with_tags=False, in_list=False):
     return P()
 
 
+META: dict = {}        # document text -> what the generator knows about it (independent of any parser)
+
+
 def document(rnd, with_tags=False, nblocks=None, hazards=True):
     rnd.hazards = hazards
+    rnd.top_code = []
     n = nblocks or rnd.choice((1, 2, 3, 4))
     rnd.ordered_delim = rnd.choice(".)")
     blocks = [block(rnd, 0, with_tags) for _ in range(n)]
@@ -157,7 +164,9 @@ def document(rnd, with_tags=False, nblocks=None, hazards=True):
     if rnd.random() < 0.25:
         blocks.append("[^fn]: " + paragraph(rnd, with_tags=False, breaks=False, hazards=hazards)
                       + (("\n\n    " + paragraph(rnd, n=3, with_tags=False, breaks=False, hazards=False)) if rnd.random() < 0.4 else ""))
-    return "\n\n".join(blocks) + "\n"
+    doc = "\n\n".join(blocks) + "\n"
+    META[doc] = {"top_code": list(rnd.top_code)}
+    return doc
 
 
 def documents(seed, n, with_tags=False, hazards=True):
